@@ -3,6 +3,8 @@
 HOOK_COMMITS = ["1decc3f"]
 
 ENGINES = [
+    {"name": "sql-smt", "path": "/verif/bin/sqlsmt.py", "serves_properties": ["C24"],
+     "kind_free_text": "SQL-in-Rust -> SMT-LIB2 translator (regenerated from /repo on every run), z3 4.8.12 + cvc5 1.0 diffed, models replayed on real sqlite"},
     {"name": "kani-cbmc", "path": "/verif/bin/verif", "serves_properties": [],
      "kind_free_text": "Kani 0.68 / CBMC 6.11 bounded model checking of the compiled Rust code: #[kani::proof] harnesses over kani::any() inputs, unwinding assertions on, CaDiCaL; counterexamples replayed natively with cargo kani playback"},
 ]
@@ -24,6 +26,19 @@ CLAIMS["C29"] = {
     "technique": _T + ": one inductive step of Service::timestamp from an arbitrary (clock, last_timestamp) state + 3-step unrolling",
     "text": "The solver shows, for every 64-bit clock reading and every previously signed timestamp < u64::MAX, that Service::timestamp returns a value strictly greater than the previous one and remembers it; by induction over calls this covers runs of any length and any clock behaviour (forward, stalled, backward). A 3-call unrolling with arbitrary clocks in between cross-checks the induction.",
     "note": "Trusted: Kani/CBMC; the partially initialised Service (only clock/last_timestamp written). Outside: last_timestamp == u64::MAX; that all signing sites use Service::timestamp (read off the source).",
+}
+
+CLAIMS["C17"] = {
+    "technique": _T + " (bit-precise IEEE-754): k-step unrolling of TokenBucket::take over symbolic times and capacity, every sub-window asserted",
+    "text": "For 8 concrete refill rates, every capacity <= 2^20 and every non-decreasing timeline of 3 (thorough: 4 and 5) requests with 64-bit millisecond timestamps, the solver shows that each sub-window admits at most capacity + rate * whole seconds and that the token count stays in [0, capacity]; plus the IPv4/IPv6 classifier behind the non-routable exemption for every address.",
+    "note": "Trusted: CBMC's floating-point encoding; 1e-9 relative slack in the f64 comparison. Outside: other rates, longer timelines, the HashMap/HashSet lookups of RateLimiter::limit (bypass list), backwards clocks (precondition established by Service::tick).",
+}
+
+CLAIMS["C24"] = {
+    "engine": "sql-smt",
+    "technique": "SQL statements extracted from the store functions, translated to SMT-LIB2 transition relations over an arbitrary pre-state row; negated model properties decided by z3 and cvc5 (diffed); models replayed on real sqlite",
+    "text": "For each of 14 store statements (routing add/remove/prune, sync status, cached refs set/delete, follow/seed policies, announcements store/prune) the solvers show unsat for the negation of its simple-model property over EVERY pre-state row and EVERY parameter value in the i64 range: timestamps only increase, prune spares the ignored node and newer entries, values move only to strictly newer + different, policies reflect the last write, announcements are replaced only by strictly newer ones and a row id is returned exactly then. One-step induction over a table viewed as key -> optional row covers operation sequences of any length.",
+    "note": "Trusted: sqlite's semantics for the UPSERT/DELETE/UPDATE subset as encoded (validated each run against real sqlite 3.40 on 336 boundary vectors and on every solver model); the Rust glue that binds parameters and maps results is outside; columns are non-NULL.",
 }
 
 NOT_APPLICABLE = {
